@@ -168,20 +168,25 @@ def handleOwn (op : String) (how : String) (r0 : Recv) (args : List Val) : Strin
     and returns the next <out> (a value token) or throws (`!`);  reply tokens are `<log>;<result>` with the log
     written as R (receiver) and argument numbers -/
 def outcome? (t : String) : Option Outcome :=
-  if t = "!" then some .throw else (val? t).map .ret
+  if t = "!" then some .throw else if t = "@" then some .retObj else (val? t).map .ret
+
+/-- a method script: `-` absent, `~` not callable, else `<out>/<out>/…` -/
+def methodScript? (t : String) : Option MethodScript :=
+  if t = "-" then some .absent else if t = "~" then some .notCallable
+  else (t.splitOn "/").mapM outcome? |>.map .outs
 
 def operand? (t : String) : Option Operand :=
   if t.startsWith "P" then (val? (t.drop 1).toString).map .prim
   else if t.startsWith "O" then ((t.drop 1).toString.splitOn "/").mapM outcome? |>.map .obj
+  else if t.startsWith "D" then
+    match (t.drop 1).toString.splitOn "|" with
+    | [v, ts] => do let v ← methodScript? v; let ts ← methodScript? ts; pure (.dual v ts)
+    | _ => none
   else none
 
-def logOut (log : List Nat) : String :=
-  if log.isEmpty then "-" else String.join (log.map fun w => if w = 0 then "R" else toString (w - 1))
-
-def firstVal : Operand → Option Val
-  | .prim v => some v
-  | .obj (.ret v :: _) => some v
-  | .obj _ => none
+def logOut (log : Log) : String :=
+  if log.isEmpty then "-" else String.join (log.map fun e =>
+    (if e.1 = 0 then "R" else toString (e.1 - 1)) ++ (if e.2 = 1 then "v" else if e.2 = 2 then "t" else ""))
 
 def seqDevs (_m : String) (_r : Run) : List String := []    -- no order deviation left
 
